@@ -157,8 +157,12 @@ impl Array {
             } else {
                 let sum_len = a.dimensions[a.dimensions.len() - a_index];
                 assert!(
-                    b.dimensions.len() < b_index
-                        || sum_len == b.dimensions[b.dimensions.len() - b_index],
+                    if b.dimensions.len() < b_index {
+                        // a vector by a vector is a dot product, which needs matching lengths
+                        a.dimensions.len() >= 2 || sum_len == b.dimensions[0]
+                    } else {
+                        sum_len == b.dimensions[b.dimensions.len() - b_index]
+                    },
                     "error: the dimensions {:?}, and {:?} are not compatible",
                     a.dimensions,
                     b.dimensions
